@@ -390,10 +390,15 @@ impl DrawExecutor {
         let mut err = x * (2 * e2 + x) + e2; /* error of 1.step */
         let color = self.line_color;
 
+        let mut last_y = -1;
         while x <= 0 {
             let (px, py) = (x as i32, y as i32);
-            self.fill_rect(xm - px, ym + py, xm + px, ym + py); /*  II. Quadrant */
-            self.fill_rect(xm + px, ym - py, xm - px, ym - py); /*  IV. Quadrant */
+            // the first span of a row is its widest one
+            if y != last_y {
+                self.fill_rect(xm - px, ym + py, xm + px, ym + py); /*  II. Quadrant */
+                self.fill_rect(xm + px, ym - py, xm - px, ym - py); /*  IV. Quadrant */
+                last_y = y;
+            }
             let e2 = 2 * err;
             if e2 >= (x * 2 + 1) * b * b {
                 /* e_xy+e_x > 0 */
